@@ -179,6 +179,53 @@ fn check(c: &mut Case, name: &str, raw: &Content) {
     }
     if let Some(t) = build(c, raw) {
         check_roundtrip(c, name, &t, &content);
+        // second generation: an archive obtained by parsing, then edited, must round-trip too
+        if cfg!(miri) && content.unicode {
+            return;
+        }
+        let mut rng = c.rng.clone();
+        if content.entries.is_empty() && !rng.chance(1, 4) {
+            return;
+        }
+        let parsed = c.lib("serialize + from_bytes (second generation)", || -> Result<TextArchive, String> {
+            let b = t.serialize().map_err(|e| e.to_string())?;
+            TextArchive::from_bytes(&b, fmt(content.unicode), endian(content.be)).map_err(|e| e.to_string())
+        });
+        if let Some(Ok(mut t2)) = parsed {
+            let mut c2 = content.clone();
+            let mode = rng.below(4);
+            // 0: only a title change, 1: only deletions, 2: deletions + title, 3: deletions + a new/overwritten message
+            if mode == 0 || mode == 2 {
+                c2.title = format!("{}x", c2.title);
+                t2.set_title(c2.title.clone());
+                c.sit("parsed_then_set_title");
+            }
+            if mode >= 1 && !c2.entries.is_empty() {
+                let ndel = rng.range(1, c2.entries.len().min(3));
+                for _ in 0..ndel {
+                    if c2.entries.is_empty() {
+                        break;
+                    }
+                    let i = rng.below(c2.entries.len());
+                    let (k, _) = c2.entries.remove(i);
+                    t2.delete_message(&k);
+                }
+                c.sit("parsed_then_delete");
+            }
+            if mode == 3 {
+                let key = if !c2.entries.is_empty() && rng.bool() { c2.entries[rng.below(c2.entries.len())].0.clone() } else { "NEW_KEY_second_generation".to_string() };
+                let val = "second generation".to_string();
+                t2.set_message(&key, &val);
+                match c2.entries.iter_mut().find(|(k, _)| *k == key) {
+                    Some(e) => e.1 = val,
+                    None => c2.entries.push((key, val)),
+                }
+            }
+            if !content.unicode {
+                c2.title = String::new(); // the legacy format has no title
+            }
+            check_roundtrip(c, "parsed, edited, serialized again", &t2, &c2);
+        }
     }
 }
 
@@ -228,6 +275,8 @@ pub const REQUIRED: &[&str] = &[
     "astral_character",
     "key_equals_a_message",
     "every_bmp_scalar",
+    "parsed_then_set_title",
+    "parsed_then_delete",
 ];
 
 pub fn run(cx: &mut Ctx) {
